@@ -56,3 +56,48 @@ PROPS["C17"] = {
     ],
     "assumptions": ["a dropped voter counts as voting even if it had rescinded", "at most 3 parties (the only in-tree constructors)"],
 }
+
+_AGENT_NOTE = ("Trusted base: the harness remotes (byte-channel peers with paced/stalled/dropped readers), the lifecycle recorder of the derived agent (true lane history through on_event/on_set/on_update/on_remove/on_clear with global tickets), "
+               "the paused Tokio clock as exact quiescence detector and the Jitter wrapper (delays a task only at poll boundaries). Schedules are sampled (channel capacities 2..4096, pacing, jitter, tokio's select order), not enumerated; "
+               "a case is replayed by re-running it until the recorded signature shows again because hash seeds and select order are per process.")
+
+PROPS["C01"] = {
+    "title": "Value lanes: subscribers see an ordered, gap-tolerant, never-stale view",
+    "level": "exploration",
+    "design_ref": "DESIGN.md §3 C01",
+    "technique": "runtime monitoring of the real agent runtime (AgentRouteTask + derived agent) under seeded hostile conversations; history oracle over ticketed frames and lifecycle callbacks",
+    "text": "40 000 (quick) / 2 000 000 (thorough) seeded conversations of 1-4 simulated remotes with a derived agent run by the real runtime: value-lane commands with unique values from several remotes and handler-made sets, byte channels down to 2 bytes, paced, stalled and dropped readers, poll jitter. Oracle per (remote, lane): every received value is in the lane's true history, indices never decrease, a repeat only with a sync; at exact quiescence (paused clock, drained readers) every remote linked before the last change was requested holds the lane's current value, and a fresh syncing probe sees the last recorded value.",
+    "note": _AGENT_NOTE,
+    "runs": [{"engine": "agent"}],
+    "assumptions": ["values are unique per case so a received value identifies its write", "quiescence = virtual-time sleep returns with all readers unstalled"],
+}
+PROPS["C02"] = {
+    "title": "Map lanes: every subscriber's replica converges to the lane's map",
+    "level": "exploration",
+    "design_ref": "DESIGN.md §3 C02",
+    "technique": "runtime monitoring: replica fold of received map operations vs the lane's callback-recorded history (convergence at quiescence, per-key value order, clear epochs, take/drop at quiescent points)",
+    "text": "Seeded conversations over three map lanes (HashMap<String,_>, BTreeMap<i32,_>, HashMap<i32,_>) with update/remove/clear by command and by handler over 2-5 colliding keys and take/drop between quiescent points. Oracle: the replica built from the operations a remote received equals the lane's map at exact quiescence for every link that was synced or predates the first change; per key the values seen are an in-order subsequence of the values the key held; no update from before a clear arrives after one from after it; take/drop leaves exactly the entries designated by the documented key order; a fresh syncing probe sees the fold of the callbacks.",
+    "note": _AGENT_NOTE,
+    "runs": [{"engine": "agent"}],
+    "assumptions": ["values unique per case", "take/drop are checked only between two quiescent points so that the map before is known"],
+}
+PROPS["C03"] = {
+    "title": "Sync gives a consistent snapshot, then a gap-free tail",
+    "level": "exploration",
+    "design_ref": "DESIGN.md §3 C03",
+    "technique": "runtime monitoring: per-key interval oracle (state at `synced` must intersect the ticketed window [sync request, synced receipt]) + convergence afterwards",
+    "text": "Seeded conversations with sync requests placed anywhere in a stream of updates, by remotes that linked first and by remotes that only sync, several concurrently, slow readers. At every `synced` frame each key of the remote's replica (value lane: the value) must be in a state the lane held, per its ticketed callback history, at some moment between the sync request and the receipt (windows interrupted by the remote's own unlink are skipped); every sync on a surviving link is answered; afterwards the C01/C02 convergence oracles apply to it and the other observers are checked unchanged.",
+    "note": _AGENT_NOTE + " The interval test uses callback tickets, which lag the state change by at most one handler step, so a snapshot that is stale by exactly the change in progress at the request is accepted.",
+    "runs": [{"engine": "agent"}],
+    "assumptions": ["values unique per case"],
+}
+PROPS["C04"] = {
+    "title": "Every uplink follows the WARP link state machine; no fabricated frames",
+    "level": "exploration",
+    "design_ref": "DESIGN.md §3 C04",
+    "technique": "runtime monitoring: per (remote, lane) protocol state machine over received frames, count-matched against the remote's own requests; body provenance against the lane history; fault injection (dropped readers/remotes, agent stop)",
+    "text": "Seeded conversations with link/sync/unlink/command envelopes in any order incl. repeats and unknown lanes, remotes that stall, drop their reader or both halves, agent stop. Oracle per (remote, lane): events and synced only inside a link; every `linked` answers a link or sync request of that remote; `synced` only with an unanswered sync request; `unlinked` outside a link only as lane-not-found for an unknown lane, one per link/sync request; no frame for a lane the remote never addressed; event bodies parse to states the lane produced (no empty, foreign or invented body); at agent stop every open link of a reading remote is closed by `unlinked` before its channel closes.",
+    "note": _AGENT_NOTE + " A repeated explicit link on an open link is answered by another `linked` (count-matched); a sync whose answers straddle the remote's own unlink may re-link it (accepted).",
+    "runs": [{"engine": "agent"}],
+    "assumptions": ["lane failure is injected by the rawagent engine, not here"],
+}
